@@ -37,7 +37,9 @@ inline State fold_break(Range &&_range, State _state, Function _function)
 {
   fcppt::algorithm::loop_break(
       std::forward<Range>(_range), [&_state, &_function](auto &&_fcppt_element) {
-        std::pair<fcppt::loop, State> result{_function(_fcppt_element, std::move(_state))};
+        // Keep the value category of the element: a move range yields rvalues.
+        std::pair<fcppt::loop, State> result{_function(
+            std::forward<decltype(_fcppt_element)>(_fcppt_element), std::move(_state))};
 
         _state = std::move(result.second);
 
